@@ -28,6 +28,7 @@ type GenCfg struct {
 	NondetPct int
 	DigRoots  bool // C12: one root map with a generated digester
 	DigRootsPct int // percentage of cases whose root maps get a generated digester
+	HipGroupsPct int // percentage of cases with a colliding hash-input provider (default digester collisions)
 }
 
 func weighted(t *rapid.T, w map[string]int, label string) string {
@@ -184,6 +185,12 @@ func (g *GenCfg) genCase(t *rapid.T, prop string) *Case {
 	}
 	if g.NondetPct > 0 && rapid.IntRange(0, 99).Draw(t, "nondet") < g.NondetPct {
 		c.Cfg.NondetCommit = true
+	}
+	if g.HipGroupsPct > 0 && rapid.IntRange(0, 99).Draw(t, "hipgroups") < g.HipGroupsPct {
+		// genuine first-level collisions under the default digester; the limit stays at 255 and groups stay
+		// far below it, so no refusal can occur (refusals are C12's business, with generated digesters)
+		c.Cfg.HipGroups = rapid.SampledFrom([]int{4, 4, 64}).Draw(t, "hipg")
+		c.Cfg.CollSet, c.Cfg.CollLimit = false, 0
 	}
 	c.Cfg.Workers = rapid.SampledFrom([]int{1, 2, 3, 8}).Draw(t, "cfgworkers")
 	n := rapid.IntRange(g.MinOps, g.MaxOps).Draw(t, "nops")
